@@ -29,4 +29,6 @@ const (
 
 func verifStep(side int, blockID int32, step int, token *int32) {}
 
+func verifBatch(side int, firstID int32, nbTasks int, token *int32) {}
+
 func verifRecovered(side int, blockID int32, r any) {}
